@@ -860,6 +860,10 @@ GRIget_image_list(int32 file_id, gr_info_t *gr_ptr)
                         if (new_image->lattree == NULL)
                             HGOTO_ERROR(DFE_NOSPACE, FAIL);
                         new_image->ri_ref = img_info[i].grp_ref;
+                        /* an image whose data have not been written yet is
+                           filled by its first partial write, as in the
+                           session that created it */
+                        new_image->fill_img = TRUE;
                         if (img_info[i].aux_ref != 0)
                             new_image->rig_ref = img_info[i].aux_ref;
                         else
